@@ -21,6 +21,7 @@ NAME = "patchsim"
 SIM_UNIT = "line events executed inside wrapped regions"
 BUDGET = {"quick": {"runs": 900, "wall": 85}, "thorough": {"runs": 6000, "wall": 2400}}
 SHRINK_LISTS = ("ops",)
+ISOLATE = True          # every run in a forked child: the subject is process-global state
 PROBES = {"C06": ["inject:pypose-frame", "inject:user-frame", "inject:torch-frame", "inject:other-frame", "user-raise",
                   "user-raise:BaseException", "nested>=2", "reused-wrapper", "op-raised", "op-completed-despite-fault",
                   "mode-B-fork", "enumerated-all-k", "monitor:api-call"]}
@@ -243,6 +244,24 @@ def _health():
     if type(J) is not torch.Tensor or not torch.allclose(J, torch.diag(torch.cos(x))):
         return "plain torch.func.jacrev no longer returns the right Jacobian"
     return None
+
+
+_PRE = False
+
+
+def preload():
+    """Called in the parent of the per-run forks: trigger torch.func's lazy imports with plain tensors only (no
+    pypose patching is involved, so nothing the property speaks of can leak into the parent)."""
+    global _PRE
+    if _PRE:
+        return
+    x = torch.linspace(0.1, 0.9, 3, dtype=torch.float64)
+    torch.func.vmap(torch.sin)(x); torch.func.jacrev(torch.sin)(x); torch.func.jacfwd(torch.sin)(x)
+    torch.func.jacrev(lambda a, b: (a * b).sin(), argnums=(0, 1))(x, x)
+    X = pp.randn_SE3(2, dtype=torch.float64)
+    X.Log(); X.Inv(); (X @ X).Act(torch.ones(2, 3, dtype=torch.float64)); X.Log().Exp(); X.matrix()
+    torch.autograd.functional.jacobian(lambda t: pp.SE3(t).Log().tensor(), X.tensor())
+    _PRE = True
 
 
 _WARM = False
